@@ -3424,3 +3424,189 @@ func ruleRootPath(w *World, r *Report, pkg *ssa.Package, tag string) {
 		r.Bad(rule, tag+":instance-floor", "-", fmt.Sprintf("only %d Diff entry points with a root path found (one per node type expected)", n))
 	}
 }
+
+// ruleIdentFallback — R-IDENTFALLBACK (C05, C07, C08 under SetKeys; their
+// quantifiers do not require every member to carry the keys). The keyed
+// identity of an object is built from the values under the set keys; an object
+// that has none of them must not share one constant identity with every other
+// such object (set diff keeps one member per identity: `[{}]` and
+// `[{"v":1},{}]` would diff as equal). The code says so itself — it falls back
+// to the full digest "if no keys are present" — and this rule checks that the
+// fallback can be reached: the return of the receiver's full digest behind the
+// emptiness test of the collected digests must be feasible under the guard
+// facts (a list seeded with a constant is never empty).
+func ruleIdentFallback(w *World, r *Report, pkg *ssa.Package, tag string) {
+	const rule = "R-IDENTFALLBACK"
+	n := 0
+	for _, fn := range w.FuncsOf(pkg) {
+		if canonFnName(fn) != "ident" || len(fn.Params) == 0 {
+			continue
+		}
+		if _, isMap := fn.Params[0].Type().Underlying().(*types.Map); !isMap {
+			continue
+		}
+		fs := NewFacts(fn, closedEnums(w, pkg))
+		k := 0
+		for _, ret := range returnsOf(fn) {
+			if len(ret.Results) != 1 {
+				continue
+			}
+			c, ok := strip(ret.Results[0]).(*ssa.Call)
+			if !ok || !isHashCodeCall(c) {
+				continue
+			}
+			// the full digest of the receiver itself
+			recvArg := c.Call.Value
+			if !c.Call.IsInvoke() && len(c.Call.Args) > 0 {
+				recvArg = c.Call.Args[0]
+			}
+			if strip(recvArg) != ssa.Value(fn.Params[0]) {
+				if mi, ok := recvArg.(*ssa.MakeInterface); !ok || strip(mi.X) != ssa.Value(fn.Params[0]) {
+					continue
+				}
+			}
+			k++
+			n++
+			_, reach := fs.At(ret.Block())
+			// a guard `len(x) == 0` on a list that is seeded non-empty and only grows decides itself
+			for _, b := range fn.Blocks {
+				cond, tE, _, okb := branchEdges(b)
+				if !okb || !(tE.To() == ret.Block() && len(ret.Block().Preds) == 1 || edgeDominates(tE, ret.Block())) {
+					continue
+				}
+				bo, okc := cond.(*ssa.BinOp)
+				if !okc || bo.Op != token.EQL {
+					continue
+				}
+				if kk, okk := constInt(bo.Y); !okk || kk != 0 {
+					continue
+				}
+				if lc, okl := isBuiltinCall(strip(bo.X), "len"); okl && minLenOf(lc.Call.Args[0], map[ssa.Value]bool{}) >= 1 {
+					reach = false
+				}
+			}
+			r.Fn(fnName(fn))
+			r.Check(reach, rule, fmt.Sprintf("%s:full-digest-fallback#%d", fnName(fn), k), w.Pos(ret.Pos()),
+				"the fallback to the object's full digest is reachable",
+				"the fallback to the object's full digest can never be taken (its guard contradicts what is known about the collected digests: the list is seeded with a constant and only grows): every object that has none of the set keys gets the same identity, so the set diff keeps only one of them — `[{}]` against `[{\"v\":1},{}]` diffs as equal")
+		}
+	}
+	if n == 0 {
+		r.Ok(rule, tag+":identity-fallback", "-", "no identity function with a full-digest fallback: this rule makes no claim (not decided)")
+	}
+}
+
+// ruleKeyMiss — R-KEYMISS (C07, C08). The diff side names a keyed member by an
+// object holding the member's values under the set keys (newPathSetKeys); the
+// patch side recomputes that object from each candidate member (pathIdent) and
+// compares digests. For a member that lacks one of the keys the two must do
+// the same thing — both leave the key out, or both put the same placeholder —
+// or the hunk the diff emits for such a member cannot be applied to the very
+// document it was made from. Each side is classified by what it does on the
+// miss edge of the lookup: writes into the key object, or skips.
+func ruleKeyMiss(w *World, r *Report, pkg *ssa.Package, tag string) {
+	const rule = "R-KEYMISS"
+	classify := func(fn *ssa.Function) (string, bool) {
+		if fn == nil || fn.Blocks == nil {
+			return "", false
+		}
+		verdict := ""
+		allInstrs(fn, func(in ssa.Instruction) {
+			lk, ok := in.(*ssa.Lookup)
+			if !ok || !lk.CommaOk {
+				return
+			}
+			// the ok flag's branch
+			for _, ref := range *lk.Referrers() {
+				ex, ok := ref.(*ssa.Extract)
+				if !ok || ex.Index != 1 || ex.Referrers() == nil {
+					continue
+				}
+				for _, r2 := range *ex.Referrers() {
+					iff, ok := r2.(*ssa.If)
+					if !ok {
+						continue
+					}
+					_, _, fE, okb := branchEdges(iff.Block())
+					if !okb {
+						continue
+					}
+					// what happens on the miss edge before control rejoins the hit side?
+					miss := fE.To()
+					writes := false
+					if len(miss.Preds) == 1 {
+						for _, i2 := range miss.Instrs {
+							if _, isMU := i2.(*ssa.MapUpdate); isMU {
+								writes = true
+							}
+						}
+					}
+					if writes {
+						verdict = "placeholder"
+					} else if verdict == "" {
+						verdict = "skip"
+					}
+				}
+			}
+		})
+		return verdict, verdict != ""
+	}
+	wfn := w.FuncOpt(pkg, "newPathSetKeys")
+	var rfn *ssa.Function
+	for _, fn := range w.FuncsOf(pkg) {
+		if canonFnName(fn) == "pathIdent" {
+			rfn = fn
+		}
+	}
+	wv, ok1 := classify(wfn)
+	rv, ok2 := classify(rfn)
+	key := tag + ":missing-set-key:diff-path-vs-patch-identity"
+	if !ok1 || !ok2 {
+		r.Ok(rule, key, "-", "the key-object constructors of the diff side and the patch side were not both recognised: this rule makes no claim (not decided)")
+		return
+	}
+	r.Fn(fnName(wfn))
+	r.Fn(fnName(rfn))
+	r.Check(wv == rv, rule, key, w.Pos(wfn.Pos()),
+		"for a member that lacks a set key the diff side and the patch side build the key object the same way ("+wv+")",
+		"for a member that lacks a set key the diff side builds the key object with a "+wv+" and the patch side with a "+rv+": the digests never agree, so the hunk the diff emits for such a member (`@ [{\"id\":null},…]`) cannot be applied to the document it was made from")
+}
+
+// minLenOf: a lower bound of len(v) for a slice built from a literal and grown by append only.
+func minLenOf(v ssa.Value, seen map[ssa.Value]bool) int64 {
+	v = strip(v)
+	if seen[v] {
+		return 1 << 30 // a cycle contributes nothing new
+	}
+	seen[v] = true
+	switch x := v.(type) {
+	case *ssa.Slice:
+		if x.Low == nil && x.High == nil {
+			if al, ok := x.X.(*ssa.Alloc); ok {
+				if at, ok := al.Type().(*types.Pointer).Elem().Underlying().(*types.Array); ok {
+					return at.Len()
+				}
+			}
+		}
+	case *ssa.MakeSlice:
+		if k, ok := constInt(x.Len); ok {
+			return k
+		}
+	case *ssa.Call:
+		if c, ok := isBuiltinCall(x, "append"); ok {
+			return minLenOf(c.Call.Args[0], seen)
+		}
+	case *ssa.Phi:
+		m := int64(1 << 30)
+		for _, e := range x.Edges {
+			if l := minLenOf(e, seen); l < m {
+				m = l
+			}
+		}
+		if m == 1<<30 {
+			return 0
+		}
+		return m
+	}
+	return 0
+}
